@@ -160,12 +160,15 @@ type Node struct {
 	OrderedBy string   `json:"ordered_by,omitempty"`
 	Units     string   `json:"units,omitempty"`
 	Desc      string   `json:"desc,omitempty"`
-	Body               // typedefs, groupings, children
+	// IfFeatures: if-feature statements on the node (on a uses: in its block), in written order.
+	IfFeatures []string `json:"if_features,omitempty"`
+	Body                // typedefs, groupings, children
 }
 
 type Augment struct {
-	Path string `json:"path"`
-	Body        // nodes (incl. uses, case)
+	Path       string   `json:"path"`
+	IfFeatures []string `json:"if_features,omitempty"`
+	Body                // nodes (incl. uses, case)
 }
 
 type Deviate struct {
@@ -257,6 +260,41 @@ func boolS(b bool) string {
 }
 
 // Text renders the module as YANG.
+// FeatureName is the k-th feature of the file of m (every file declares the features it names itself).
+func (m *Module) FeatureName(k int) string {
+	return fmt.Sprintf("f%sx%d", strings.ReplaceAll(m.Name, "-", ""), k)
+}
+
+// usedFeatures lists the features named by if-feature statements of the file, sorted.
+func (m *Module) usedFeatures() []string {
+	seen := map[string]bool{}
+	var walk func(b *Body)
+	walk = func(b *Body) {
+		for _, g := range b.Groupings {
+			walk(&g.Body)
+		}
+		for _, n := range b.Nodes {
+			for _, f := range n.IfFeatures {
+				seen[f] = true
+			}
+			walk(&n.Body)
+		}
+	}
+	walk(&m.Body)
+	for _, a := range m.Augments {
+		for _, f := range a.IfFeatures {
+			seen[f] = true
+		}
+		walk(&a.Body)
+	}
+	out := make([]string, 0, len(seen))
+	for f := range seen {
+		out = append(out, f)
+	}
+	sort.Strings(out)
+	return out
+}
+
 func (m *Module) Text() string {
 	p := &pr{}
 	if m.IsSub {
@@ -280,6 +318,9 @@ func (m *Module) Text() string {
 	for _, r := range m.Revisions {
 		p.line("revision %s;", r)
 	}
+	for _, f := range m.usedFeatures() {
+		p.line("feature %s;", f)
+	}
 	for _, id := range m.Identities {
 		if len(id.Bases) == 0 {
 			p.line("identity %s;", id.Name)
@@ -294,6 +335,9 @@ func (m *Module) Text() string {
 	p.body(&m.Body)
 	for _, a := range m.Augments {
 		p.open("augment %s", Q(a.Path))
+		for _, f := range a.IfFeatures {
+			p.line("if-feature %s;", f)
+		}
 		p.body(&a.Body)
 		p.close()
 	}
@@ -408,7 +452,15 @@ func (p *pr) typ(t *TypeRef) {
 func (p *pr) node(n *Node) {
 	switch n.Kind {
 	case KUses:
-		p.line("uses %s;", n.Name)
+		if len(n.IfFeatures) == 0 {
+			p.line("uses %s;", n.Name)
+			return
+		}
+		p.open("uses %s", n.Name)
+		for _, f := range n.IfFeatures {
+			p.line("if-feature %s;", f)
+		}
+		p.close()
 		return
 	case KInput, KOutput:
 		p.open("%s", n.Kind)
@@ -417,6 +469,9 @@ func (p *pr) node(n *Node) {
 	}
 	if n.Desc != "" {
 		p.line("description %s;", Q(n.Desc))
+	}
+	for _, f := range n.IfFeatures {
+		p.line("if-feature %s;", f)
 	}
 	if n.Key != "" {
 		p.line("key %s;", Q(n.Key))
